@@ -25,7 +25,7 @@ def _frames(family, which):
     from . import datasets as ds
 
     seed = {"A": 0, "B": 5, "C": 9}[which]
-    if family in ("daily", "daily_legacy", "billing", "daily_spiky"):
+    if family in ("daily", "daily_legacy", "billing", "daily_spiky", "daily_crs2", "daily_stogo", "daily_esch"):
         if family == "daily_spiky":
             return ds.daily_frame(start="2021-01-01", days=365, tz=ZONE, wseed=seed, seed=seed, noise=0.05, spikes=6)
         return ds.daily_frame(start="2021-01-01", days=365, tz=ZONE, wseed=seed, seed=seed, noise=0.05, weekend_factor=1.2)
@@ -40,6 +40,12 @@ def do_fit(family, which, reuse=None):
     fr = _frames(family, which)
     if family in ("daily", "daily_spiky"):
         m = (reuse if reuse is not None else em.DailyModel()).fit(em.DailyBaselineData(fr, is_electricity_data=True))
+        rep = em.DailyReportingData(ds.daily_frame(start="2022-01-01", days=120, tz=ZONE, wseed=3, seed=3), is_electricity_data=True)
+    elif family in ("daily_crs2", "daily_stogo", "daily_esch"):
+        # developer profiles selecting one of nlopt's RANDOMISED algorithms for the initial guess (same settings => same model)
+        algo = {"daily_crs2": "nlopt_crs2_lm", "daily_stogo": "nlopt_stogo_rand", "daily_esch": "nlopt_esch"}[family]
+        m = em.DailyModel(settings={"developer_mode": True, "silent_developer_mode": True, "initial_guess_algorithm_choice": algo}).fit(
+            em.DailyBaselineData(fr, is_electricity_data=True))
         rep = em.DailyReportingData(ds.daily_frame(start="2022-01-01", days=120, tz=ZONE, wseed=3, seed=3), is_electricity_data=True)
     elif family == "daily_legacy":
         m = em.DailyModel(model="legacy").fit(em.DailyBaselineData(fr, is_electricity_data=True))
